@@ -2,6 +2,7 @@ import WacModel.Parser
 import WacModel.AstErase
 import WacModel.PrintTokens
 import WacModel.PrintWF
+import WacModel.PrintDepth
 /-
   C13, base layer of "the parser model accepts the printed token sequence": the definitions
   (`E`, `DocsNF`, `ParsesTo`, follow-set predicates), the lexer-state lemmas (`peek…`, `next`,
@@ -11,8 +12,9 @@ import WacModel.PrintWF
 namespace Wac.Lemmas.PrinterParse
 open Wac Wac.Ast Wac.Lex Wac.Parse Wac.PrintTok
 
-/-- the tokens a parser state still has to read, without byte offsets -/
-def E (st : PState) : List PTok := st.toks.map LTok.erase
+/-- the items `PState.next` will return for the tokens a parser state still has to read, without
+byte offsets (an opening bracket beyond the nesting limit of the lexer appears as an error item) -/
+def E (st : PState) : List PTok := Wac.PrintTok.viewToks st.depth st.toks
 
 /-- the doc-comment normal-form lemma, as a hypothesis (it is `Wac.Lemmas.PrinterErase.eraseDocs_of_comments_eq`) -/
 def DocsNF : Prop :=
@@ -80,33 +82,124 @@ theorem headIs.append {k : Token} {ts : List PTok} (h : headIs k ts) (r : List P
 
 /-! ### the lexer state -/
 
-theorem E_cons {st : PState} {t : PTok} {rest : List PTok} (h : E st = t :: rest) :
-    ∃ lt r, st.toks = lt :: r ∧ lt.erase = t ∧ r.map LTok.erase = rest := by
+/-- one step of the view: the raw head item agrees with the viewed one in text and docs, and in the
+token kind whenever the viewed item is not an error -/
+theorem viewToks_head {d : Nat} {toks : List LTok} {t : PTok} {rest : List PTok}
+    (h : viewToks d toks = t :: rest) :
+    ∃ lt r d', toks = lt :: r ∧ rest = viewToks d' r ∧ lt.text = t.text ∧
+      lt.docs.map (·.comment) = t.docs ∧ (∀ k, t.res = .ok k → lt.res = .ok k) := by
+  cases toks with
+  | nil => simp [viewToks] at h
+  | cons lt r =>
+    simp only [viewToks] at h
+    cases hres : lt.res with
+    | error e =>
+      rw [hres] at h
+      simp only [List.cons.injEq] at h
+      obtain ⟨rfl, rfl⟩ := h
+      exact ⟨lt, r, d, rfl, rfl, rfl, rfl, fun k hk => by simp [LTok.erase, hres] at hk⟩
+    | ok k =>
+      rw [hres] at h
+      simp only at h
+      by_cases ho : isOpenBracket k = true
+      · simp only [ho, if_true, List.cons.injEq] at h
+        obtain ⟨ht, rfl⟩ := h
+        refine ⟨lt, r, d + 1, rfl, rfl, ?_, ?_, ?_⟩
+        · rw [← ht]; split <;> rfl
+        · rw [← ht]; split <;> rfl
+        · intro k' hk'
+          rw [← ht] at hk'
+          split at hk'
+          · simp at hk'
+          · simpa [LTok.erase] using hk'
+      · by_cases hc : isCloseBracket k = true
+        · simp only [ho, hc, if_true, Bool.false_eq_true, if_false, List.cons.injEq] at h
+          obtain ⟨rfl, rfl⟩ := h
+          exact ⟨lt, r, d - 1, rfl, rfl, rfl, rfl, fun k hk => hk⟩
+        · simp only [ho, hc, Bool.false_eq_true, if_false, List.cons.injEq] at h
+          obtain ⟨rfl, rfl⟩ := h
+          exact ⟨lt, r, d, rfl, rfl, rfl, rfl, fun k hk => hk⟩
+
+theorem viewToks_length (d : Nat) (toks : List LTok) : (viewToks d toks).length = toks.length := by
+  induction toks generalizing d with
+  | nil => simp [viewToks]
+  | cons lt r ih =>
+    simp only [viewToks]
+    split
+    · split
+      · simp [ih]
+      · split <;> simp [ih]
+    · simp [ih]
+
+/-- one step of the lexer on a state whose view starts with `t` -/
+theorem E_step {st : PState} {t : PTok} {rest : List PTok} (h : E st = t :: rest) :
+    ∃ nt st', st.next = (some nt, st') ∧ nt.erase = t ∧ E st' = rest := by
   unfold E at h
   cases hs : st.toks with
-  | nil => rw [hs] at h; cases h
+  | nil => rw [hs] at h; simp [viewToks] at h
   | cons lt r =>
     rw [hs] at h
-    simp only [List.map_cons, List.cons.injEq] at h
-    exact ⟨lt, r, rfl, h.1, h.2⟩
+    simp only [viewToks] at h
+    cases hres : lt.res with
+    | error e =>
+      rw [hres] at h
+      simp only [List.cons.injEq] at h
+      exact ⟨lt, { st with toks := r, lastStart := lt.span.offset, lastEnd := lt.span.offset + lt.span.len },
+        by simp only [PState.next, hs, hres], h.1, h.2⟩
+    | ok k =>
+      rw [hres] at h
+      simp only at h
+      by_cases ho : isOpenBracket k = true
+      · simp only [ho, if_true, List.cons.injEq] at h
+        by_cases htd : tooDeep (st.depth + 1) = true
+        · simp only [htd, if_true] at h
+          exact ⟨{ lt with res := .error .NestingTooDeep },
+            { st with toks := r, lastStart := lt.span.offset, lastEnd := lt.span.offset + lt.span.len,
+                      depth := st.depth + 1 },
+            by simp only [PState.next, hs, hres, ho, htd, if_true], h.1, h.2⟩
+        · simp only [htd, Bool.false_eq_true, if_false] at h
+          exact ⟨lt,
+            { st with toks := r, lastStart := lt.span.offset, lastEnd := lt.span.offset + lt.span.len,
+                      depth := st.depth + 1 },
+            by simp only [PState.next, hs, hres, ho, htd, if_true, Bool.false_eq_true, if_false], h.1, h.2⟩
+      · by_cases hc : isCloseBracket k = true
+        · simp only [ho, hc, if_true, Bool.false_eq_true, if_false, List.cons.injEq] at h
+          exact ⟨lt,
+            { st with toks := r, lastStart := lt.span.offset, lastEnd := lt.span.offset + lt.span.len,
+                      depth := st.depth - 1 },
+            by simp only [PState.next, hs, hres, ho, hc, if_true, Bool.false_eq_true, if_false], h.1, h.2⟩
+        · simp only [ho, hc, Bool.false_eq_true, if_false, List.cons.injEq] at h
+          exact ⟨lt,
+            { st with toks := r, lastStart := lt.span.offset, lastEnd := lt.span.offset + lt.span.len },
+            by simp only [PState.next, hs, hres, ho, hc, Bool.false_eq_true, if_false], h.1, h.2⟩
 
-theorem E_length (st : PState) : (E st).length = st.toks.length := by simp [E]
+theorem E_cons {st : PState} {t : PTok} {rest : List PTok} (h : E st = t :: rest) :
+    ∃ lt r d', st.toks = lt :: r ∧ rest = viewToks d' r ∧ lt.text = t.text ∧
+      lt.docs.map (·.comment) = t.docs ∧ (∀ k, t.res = .ok k → lt.res = .ok k) :=
+  viewToks_head h
+
+theorem E_length (st : PState) : (E st).length = st.toks.length := viewToks_length _ _
+
+theorem E_nil {st : PState} (h : E st = []) : st.toks = [] := by
+  have := E_length st
+  rw [h] at this
+  exact List.length_eq_zero_iff.1 this.symm
 
 theorem E_next {st : PState} {t : PTok} {rest : List PTok} (h : E st = t :: rest) :
     E st.next.2 = rest := by
-  obtain ⟨lt, r, hs, -, hr⟩ := E_cons h
-  simp only [PState.next, hs, E, hr]
+  obtain ⟨nt, st', hn, -, hE⟩ := E_step h
+  rw [hn]; exact hE
 
 theorem peek_of_E {st : PState} {t : PTok} {rest : List PTok} (h : E st = t :: rest) :
-    ∃ lt, st.peek = some lt ∧ lt.erase = t := by
-  obtain ⟨lt, r, hs, ht, -⟩ := E_cons h
-  exact ⟨lt, by simp [PState.peek, hs], ht⟩
+    ∃ lt, st.peek = some lt ∧ lt.text = t.text ∧ lt.docs.map (·.comment) = t.docs ∧
+      (∀ k, t.res = .ok k → lt.res = .ok k) := by
+  obtain ⟨lt, r, d', hs, -, h1, h2, h3⟩ := E_cons h
+  exact ⟨lt, by simp [PState.peek, hs], h1, h2, h3⟩
 
 theorem peekTok_of_E {st : PState} {t : PTok} {rest : List PTok} {k : Token}
     (h : E st = t :: rest) (hk : t.res = .ok k) : peekTok st = some k := by
-  obtain ⟨lt, hp, ht⟩ := peek_of_E h
-  have : lt.res = .ok k := by rw [← ht] at hk; exact hk
-  simp [peekTok, hp, LTok.tok?, this]
+  obtain ⟨lt, hp, -, -, hres⟩ := peek_of_E h
+  simp [peekTok, hp, LTok.tok?, hres k hk]
 
 theorem peekTok_of_headIs {st : PState} {k : Token} (h : headIs k (E st)) : peekTok st = some k := by
   obtain ⟨t, r, e, hk⟩ := h; exact peekTok_of_E e hk
@@ -128,46 +221,59 @@ theorem peekIn_false {st : PState} {k : Token} {ks : List Token} (h : headIs k (
 
 theorem peek2Tok_of_E {st : PState} {t1 t2 : PTok} {rest : List PTok} {k : Token}
     (h : E st = t1 :: t2 :: rest) (hk : t2.res = .ok k) : peek2Tok st = some k := by
-  obtain ⟨lt, r, hs, -, hr⟩ := E_cons h
-  cases r with
-  | nil => cases hr
-  | cons lt2 r2 =>
-    simp only [List.map_cons, List.cons.injEq] at hr
-    have : lt2.res = .ok k := by rw [← hr.1] at hk; exact hk
-    simp [peek2Tok, PState.peek2, hs, LTok.tok?, this]
+  obtain ⟨lt, r, d', hs, hr, -, -, -⟩ := E_cons h
+  obtain ⟨lt2, r2, d'', hs2, -, -, -, hres⟩ := viewToks_head hr.symm
+  subst hs2
+  simp [peek2Tok, PState.peek2, hs, LTok.tok?, hres k hk]
 
 /-- `parseToken` on a state whose next token has the expected kind -/
 theorem parseToken_ok {st : PState} {t : PTok} {rest : List PTok} {k : Token}
     (h : E st = t :: rest) (hk : t.res = .ok k) :
     ∃ lt st', parseToken st k = .ok (lt, st') ∧ lt.erase = t ∧ E st' = rest := by
-  obtain ⟨lt, r, hs, ht, hr⟩ := E_cons h
-  have hres : lt.res = .ok k := by rw [← ht] at hk; exact hk
-  refine ⟨lt, { st with toks := r, lastStart := lt.span.offset, lastEnd := lt.span.offset + lt.span.len }, ?_, ht, ?_⟩
-  · simp [parseToken, PState.next, hs, hres]
-  · simp [E, hr]
+  obtain ⟨nt, st', hn, hnt, hE⟩ := E_step h
+  have hres : nt.res = .ok k := by rw [← hnt] at hk; exact hk
+  exact ⟨nt, st', by simp [parseToken, hn, hres], hnt, hE⟩
 
 theorem parseOptional_none {α : Type} {st : PState} {k : Token} (cb : PState → PR α)
     (h : headNot [k] (E st)) : parseOptional st k cb = .ok (none, st) := by
   unfold parseOptional
-  cases hs : st.toks with
-  | nil => simp [PState.peek, hs]
-  | cons lt r =>
-    obtain ⟨k', hk', hne⟩ := h lt.erase (r.map LTok.erase) (by simp [E, hs])
-    have hres : lt.res = .ok k' := hk'
+  cases hE : E st with
+  | nil => simp [PState.peek, E_nil hE]
+  | cons t r =>
+    obtain ⟨k', hk', hne⟩ := h t r hE
+    obtain ⟨lt, hp, -, -, hres⟩ := peek_of_E hE
     have : k' ≠ k := by simpa using hne
-    simp [PState.peek, hs, hres, this]
+    simp [hp, hres k' hk', this]
+
+/-- the result of `parseOptional` when the optional part is present, as a function of the callback's result -/
+def optMap {α : Type} (r : PR α) : PR (Option α) :=
+  match r with
+  | .ok (a, st') => .ok (some a, st')
+  | .error e => .error e
+
+@[simp] theorem optMap_ok {α : Type} (a : α) (st' : PState) :
+    optMap (.ok (a, st') : PR α) = .ok (some a, st') := rfl
+
+theorem parseOptional_eq {α : Type} {st : PState} {t : PTok} {rest : List PTok} {k : Token}
+    (cb : PState → PR α) (h : E st = t :: rest) (hk : t.res = .ok k) :
+    parseOptional st k cb = optMap (cb st.next.2) := by
+  obtain ⟨lt, hp, -, -, hres⟩ := peek_of_E h
+  obtain ⟨nt, st', hn, hnt, -⟩ := E_step h
+  have hres' : nt.res = .ok k := by rw [← hnt] at hk; exact hk
+  simp only [parseOptional, hp, hres k hk, if_true, parseToken, hn, hres', optMap]
+  cases cb st' with
+  | error e => rfl
+  | ok v => rfl
 
 theorem parseOptional_some {α : Type} {st st' : PState} {t : PTok} {rest : List PTok} {k : Token}
     {cb : PState → PR α} {a : α} (h : E st = t :: rest) (hk : t.res = .ok k)
     (hcb : cb st.next.2 = .ok (a, st')) : parseOptional st k cb = .ok (some a, st') := by
-  obtain ⟨lt, hp, ht⟩ := peek_of_E h
-  have hres : lt.res = .ok k := by rw [← ht] at hk; exact hk
-  simp [parseOptional, hp, hres, hcb]
+  rw [parseOptional_eq cb h hk, hcb]; rfl
 
 theorem parseDocs_comments {st : PState} {t : PTok} {rest : List PTok} (h : E st = t :: rest) :
     (parseDocs st).map (·.comment) = t.docs := by
-  obtain ⟨lt, hp, ht⟩ := peek_of_E h
-  simp [parseDocs, hp, ← ht, LTok.erase]
+  obtain ⟨lt, hp, -, hd, -⟩ := peek_of_E h
+  simp [parseDocs, hp, hd]
 
 /-- the doc comments the parser attaches to a node whose first printed token carries `docLines ds` -/
 theorem parseDocs_erase (hdocs : DocsNF) {st : PState} {t : PTok} {rest : List PTok}
@@ -185,8 +291,7 @@ theorem peekTok_of_headNot {st : PState} {ks : List Token} (h : headNot ks (E st
   cases hE : E st with
   | nil =>
     left
-    have : st.toks = [] := by simpa [E] using hE
-    simp [peekTok, PState.peek, this]
+    simp [peekTok, PState.peek, E_nil hE]
   | cons t r =>
     right
     obtain ⟨k, hk, hm⟩ := h t r hE
@@ -201,29 +306,45 @@ theorem length_le_flatMap {α β : Type} (f : α → List β) (xs : List α) (h 
     have := ih (fun y hy => h y (List.mem_cons_of_mem _ hy))
     simp only [List.flatMap_cons, List.length_append, List.length_cons]; omega
 
-/-- the result of `parseOptional` when the optional part is present, as a function of the callback's result -/
-def optMap {α : Type} (r : PR α) : PR (Option α) :=
-  match r with
-  | .ok (a, st') => .ok (some a, st')
-  | .error e => .error e
-
-@[simp] theorem optMap_ok {α : Type} (a : α) (st' : PState) :
-    optMap (.ok (a, st') : PR α) = .ok (some a, st') := rfl
-
-theorem parseOptional_eq {α : Type} {st : PState} {t : PTok} {rest : List PTok} {k : Token}
-    (cb : PState → PR α) (h : E st = t :: rest) (hk : t.res = .ok k) :
-    parseOptional st k cb = optMap (cb st.next.2) := by
-  obtain ⟨lt, hp, ht⟩ := peek_of_E h
-  have hres : lt.res = .ok k := by rw [← ht] at hk; exact hk
-  simp only [parseOptional, hp, hres, if_true, optMap]
-  cases cb st.next.2 with
-  | error e => rfl
-  | ok v => rfl
-
 theorem next_of_E {st : PState} {t : PTok} {rest : List PTok} (h : E st = t :: rest) :
     ∃ lt st', st.next = (some lt, st') ∧ E st' = rest := by
-  obtain ⟨lt, r, hs, -, hr⟩ := E_cons h
-  exact ⟨lt, _, by simp only [PState.next, hs]; rfl, by simp [E, hr]⟩
+  obtain ⟨nt, st', hn, -, hE⟩ := E_step h
+  exact ⟨nt, st', hn, hE⟩
+
+/-! ### bridge to the raw token list: within the nesting limit the view is the list itself -/
+
+theorem viewToks_eq_map (d : Nat) (toks : List LTok)
+    (h : (Wac.PrintTok.runDepth d (toks.map LTok.erase)).isSome = true) :
+    Wac.PrintTok.viewToks d toks = toks.map LTok.erase := by
+  induction toks generalizing d with
+  | nil => simp [viewToks]
+  | cons lt r ih =>
+    simp only [List.map_cons, runDepth, viewToks] at h ⊢
+    have he : lt.erase.res = lt.res := rfl
+    rw [he] at h
+    cases hres : lt.res with
+    | error e =>
+      rw [hres] at h
+      simp only at h ⊢
+      rw [ih d h]
+    | ok k =>
+      rw [hres] at h
+      simp only at h ⊢
+      by_cases ho : isOpenBracket k = true
+      · simp only [ho, if_true] at h ⊢
+        by_cases htd : tooDeep (d + 1) = true
+        · simp [htd] at h
+        · simp only [htd, Bool.false_eq_true, if_false] at h ⊢
+          rw [ih _ h]
+      · by_cases hc : isCloseBracket k = true
+        · simp only [ho, hc, if_true, Bool.false_eq_true, if_false] at h ⊢
+          rw [ih _ h]
+        · simp only [ho, hc, Bool.false_eq_true, if_false] at h ⊢
+          rw [ih _ h]
+
+theorem E_eq_map (st : PState)
+    (h : (Wac.PrintTok.runDepth st.depth (st.toks.map LTok.erase)).isSome = true) :
+    E st = st.toks.map LTok.erase := viewToks_eq_map _ _ h
 
 theorem peekIs_false_of_headIn {st : PState} {ks : List Token} {k' : Token} (h : headIn ks (E st))
     (hne : k' ∉ ks) : peekIs st k' = false := by
